@@ -105,6 +105,8 @@ type rlReport struct {
 // ------------------------------------------------------------------ scenario state
 
 type scen struct {
+	lastDest  time.Time   // the last time any destination was contacted by the relay (a connection, a request)
+	delivAt   []time.Time // every delivery of a source message to the relay
 	termReq chan struct{}
 	sc      rlScenario
 	mu      sync.Mutex
@@ -183,6 +185,7 @@ func (s *scen) consume(d int) {
 
 // a destination has read a complete request carrying body; returns m (0 = unknown body)
 func (s *scen) onRequestLocked(d int, body []byte) int {
+	s.lastDest = time.Now()
 	m := s.bodyIdx[string(body)]
 	s.outst++
 	if m == 0 {
@@ -312,6 +315,7 @@ func (s *scen) proxyS2C(u, c net.Conn) {
 			} else {
 				s.idToM[id] = m
 				s.deliv[m]++
+				s.delivAt = append(s.delivAt, time.Now())
 				s.log(rlEvent{Ev: "Deliver", M: m, Info: fmt.Sprintf("attempts=%d", binary.BigEndian.Uint16(data[8:10]))})
 			}
 			s.mu.Unlock()
@@ -320,6 +324,15 @@ func (s *scen) proxyS2C(u, c net.Conn) {
 			return
 		}
 	}
+}
+
+func filter0(sc rlScenario) bool { return sc.Filter != "" || sc.Defaults }
+func sumInts(a []int) int {
+	n := 0
+	for _, x := range a {
+		n += x
+	}
+	return n
 }
 
 // ------------------------------------------------------------------ fake destination nsqd
@@ -331,6 +344,7 @@ func (s *scen) fakeNsqd(ln net.Listener, d int) {
 			return
 		}
 		s.mu.Lock()
+		s.lastDest = time.Now()
 		down := strings.HasPrefix(s.peek(d), "D")
 		if down {
 			// only the relay's producer connects here, and only from PublishAsync: that call fails
@@ -476,6 +490,7 @@ func (l *downListener) Accept() (net.Conn, error) {
 			return nil, err
 		}
 		l.s.mu.Lock()
+		l.s.lastDest = time.Now()
 		down := strings.HasPrefix(l.s.peek(l.d), "D")
 		if down {
 			l.s.consume(l.d)
@@ -927,6 +942,17 @@ func runScenario(job *rlJob, sc rlScenario, src *nsqd.NSQD) rlResult {
 	} else if died {
 		res.Inconclusive = sc.Tool + " exited by itself: " + tail(stderr.String(), 600)
 	} else if res.Quiescence == "none" {
+		// the source went on delivering and the relay has not been near a destination for a long time: it has stopped
+		// forwarding (the property: requeue otherwise, so that every message still arrives)
+		recent := 0
+		for _, t := range s.delivAt {
+			if time.Since(t) < 40*time.Second {
+				recent++
+			}
+		}
+		if recent >= 5 && time.Since(s.lastDest) > 45*time.Second && !filter0(sc) {
+			res.Violations = append(res.Violations, fmt.Sprintf("AtLeastOnce: the source delivered pending messages to the relay %d times in the last 40 s (after %d deliveries, %d FIN, %d REQ in all); the relay has not contacted any destination for %s: it has stopped forwarding them", recent, len(s.delivAt), sumInts(s.fins), sumInts(s.reqs), time.Since(s.lastDest).Round(time.Second)))
+		}
 		res.Inconclusive = fmt.Sprintf("no quiescence within %s (delivered=%d fins=%d reqs=%d outstanding=%d)", deadline, res.Delivered, res.Fins, res.Reqs, s.outst)
 	}
 	// Go-side ledger (the same predicates RelayTrace.tla evaluates; gives readable messages)
